@@ -208,6 +208,7 @@ def render_block(spec, design, bi, blockname):
     op = round(P * 0.97, 4)
     mult = float(design["mult"])
     thot = design["thot"]
+    tin = design.get("tin", 25.0)  # input temperature of the solid components (optional key; 0.0 is a legitimate value)
     hexg = spec["geom"].startswith("hex")
     L = ["    %s: &block_%s" % (blockname, blockname.replace(" ", "_"))]
     pin_grid = design["pinGrid"] and kind in ("fuel", "reflector", "control") and hexg
@@ -227,34 +228,34 @@ def render_block(spec, design, bi, blockname):
         return _comp(name, 8, **kw)
 
     if kind == "fuel":
-        L += circ("fuel", design.get("fuelMat", "UZr"), 0.0, round(od * 0.8, 4), 25.0, thot)
+        L += circ("fuel", design.get("fuelMat", "UZr"), 0.0, round(od * 0.8, 4), tin, thot)
         L += circ("bond", "Sodium", "fuel.od", "clad.id", 450.0, 450.0, mlt=None if pin_grid else "fuel.mult")
-        L += circ("clad", "HT9", round(od * 0.9, 4), od, 25.0, min(thot, 470.0), mlt=None if pin_grid else "fuel.mult")
+        L += circ("clad", "HT9", round(od * 0.9, 4), od, tin, min(thot, 470.0), mlt=None if pin_grid else "fuel.mult")
     elif kind == "plenum":
         L += circ("gap", "Void", 0.0, "clad.id", 450.0, 450.0, mlt="clad.mult")
-        L += circ("clad", "HT9", round(od * 0.9, 4), od, 25.0, 470.0, mlt=mult)
+        L += circ("clad", "HT9", round(od * 0.9, 4), od, tin, 470.0, mlt=mult)
         lat = None
     elif kind == "control":
-        L += circ("control", "B4C", 0.0, round(od * 0.85, 4), 25.0, thot)
+        L += circ("control", "B4C", 0.0, round(od * 0.85, 4), tin, thot)
         L += circ("gap", "Void", "control.od", "clad.id", 450.0, 450.0, mlt=None if pin_grid else "control.mult")
-        L += circ("clad", "HT9", round(od * 0.92, 4), od, 25.0, 450.0, mlt=None if pin_grid else "control.mult")
+        L += circ("clad", "HT9", round(od * 0.92, 4), od, tin, 450.0, mlt=None if pin_grid else "control.mult")
     elif kind in ("reflector", "grid plate"):
         name = "reflector" if kind == "reflector" else "grid"
         if kind == "grid plate":
-            L += _comp("grid", 8, shape="Circle", material="HT9", Tinput=25.0, Thot=450.0, id=0.0, od=od, mult=mult)
+            L += _comp("grid", 8, shape="Circle", material="HT9", Tinput=tin, Thot=450.0, id=0.0, od=od, mult=mult)
         else:
-            L += circ(name, "HT9", 0.0, od, 25.0, 450.0)
+            L += circ(name, "HT9", 0.0, od, tin, 450.0)
     # wire for pinned blocks without a grid
     if kind in ("fuel", "control") and not pin_grid:
         owner = "fuel" if kind == "fuel" else "control"
-        L += _comp("wire", 8, shape="Helix", material="HT9", Tinput=25.0, Thot=450.0, axialPitch=30.0,
+        L += _comp("wire", 8, shape="Helix", material="HT9", Tinput=tin, Thot=450.0, axialPitch=30.0,
                    helixDiameter=round(od * 1.05, 4), id=0.0, od=round(od * 0.05, 4), mult="%s.mult" % owner)
     L += _comp("coolant", 8, shape="DerivedShape", material="Sodium", Tinput=450.0, Thot=450.0)
     if hexg:
-        L += _comp("duct", 8, shape="Hexagon", material="HT9", Tinput=25.0, Thot=450.0, ip=ip, mult=1.0, op=op)
+        L += _comp("duct", 8, shape="Hexagon", material="HT9", Tinput=tin, Thot=450.0, ip=ip, mult=1.0, op=op)
         L += _comp("intercoolant", 8, shape="Hexagon", material="Sodium", Tinput=450.0, Thot=450.0, ip="duct.op", mult=1.0, op=P)
     else:
-        L += _comp("duct", 8, shape="Rectangle", material="HT9", Tinput=25.0, Thot=450.0, lengthInner=ip, lengthOuter=op,
+        L += _comp("duct", 8, shape="Rectangle", material="HT9", Tinput=tin, Thot=450.0, lengthInner=ip, lengthOuter=op,
                    widthInner=ip, widthOuter=op, mult=1.0)
         L += _comp("intercoolant", 8, shape="Rectangle", material="Sodium", Tinput=450.0, Thot=450.0, lengthInner=op,
                    lengthOuter=P, widthInner=op, widthOuter=P, mult=1.0)
@@ -314,12 +315,14 @@ def render(spec):
     L.append("systems:")
     L.append("    core:")
     L.append("        grid name: core")
-    L.append("        origin: {x: 0.0, y: 0.0, z: 0.0}")
+    co = spec.get("coreOrigin") or [0.0, 0.0, 0.0]
+    L.append("        origin: {x: %r, y: %r, z: %r}" % tuple(co))
     if spec.get("sfp"):
+        so = spec.get("sfpOrigin") or [5000.0, 5000.0, 6000.0]
         L.append("    Spent Fuel Pool:")
         L.append("        type: sfp")
         L.append("        grid name: sfp")
-        L.append("        origin: {x: 5000.0, y: 5000.0, z: 6000.0}")
+        L.append("        origin: {x: %r, y: %r, z: %r}" % tuple(so))
     L.append("grids:")
     L.append("    core:")
     L.append("        geom: %s" % spec["geom"])
